@@ -15,8 +15,10 @@ import Gama.Lemmas.XmlEsc
 import Gama.Lemmas.CovBand
 import Gama.Lemmas.ReaderPoint
 import Gama.Lemmas.XmlRecordsCodec
+import Gama.Lemmas.XmlDoc
+import Gama.Gen.XmlSkeleton
 namespace Gama.Props.C12
-open Gama Gama.XmlEsc Gama.CovBand Gama.Gen.XmlSites Gama.ReaderPoint Gama.XmlRec
+open Gama Gama.XmlEsc Gama.CovBand Gama.Gen.XmlSites Gama.ReaderPoint Gama.XmlRec Gama.XmlDoc Gama.Gen.XmlSkeleton
 
 /-! ## escaping -/
 
@@ -74,6 +76,43 @@ theorem C12_F11_witness :
 theorem C12_F11_attr_witness :
     wellFormedAttr (emit ⟨.attr, "extern", "visit(Distance)", "s", .text, false⟩ [97, 34, 98]) = false := by
   decide
+
+/-! ## the document -/
+
+/-- the regenerated skeleton of `LocalNetworkXML::write` opens and closes every element on the same path, keeps every
+    operand inside its leaf element, and has exactly one root element (static check, evaluated on the tree being checked) -/
+theorem C12_skeleton_nested : chk writeSk St.init = some ⟨.epilog, []⟩ := by decide +kernel
+
+/-- … all its literal tag / attribute names are XML names, attribute names of a tag are distinct, literal character data
+    and comments are well-formed, and every operand that is an input string is passed through `str2xml` -/
+theorem C12_skeleton_lexical : skOK writeSk = true := by decide +kernel
+
+/-- every document `LocalNetworkXML::write` can produce — any number of points, ellipses, orientations, `<flt>`, `<ind>`
+    and observations of any kinds, either branch of every conditional, any identifiers / description / `extern` strings,
+    any printed numbers — is well-formed XML at the token level: `prolog element Misc*` with one root element, every
+    start tag closed by the matching end tag, operands inside their leaf element, and every token lexically well-formed
+    (names, unique attributes, attribute values without `<`, `&`, `"`; character data without `<`, bare `&`, `]]>`) -/
+theorem C12_document_wellformed (toks : List Tok) (h : Gen writeSk toks) : WellFormedDoc toks :=
+  wellFormed_of_checks (by decide) (by decide) writeSk _ C12_skeleton_nested rfl C12_skeleton_lexical toks h
+
+/-- the children of a `<point>` as the record model writes them are an instance of the regenerated `<point>` skeleton:
+    `id`, then `x y` or `X Y`, then `z` or `Z` (the writer model of the round-trip theorems follows the source's order) -/
+theorem C12_point_tags_in_skeleton :
+    ∀ hxy cxy hz cz : Bool,
+      accepts sk_coordinates
+        ([.stag "coordinates" [] false, .stag "fixed" [] false, .etag "fixed", .stag "approximate" [] false,
+          .stag "point" [] false, .stag "id" [] false, .chars false, .etag "id"] ++
+         (if hxy then [.stag (if cxy then "X" else "x") [] false, .chars false, .etag (if cxy then "X" else "x"),
+                       .stag (if cxy then "Y" else "y") [] false, .chars false, .etag (if cxy then "Y" else "y")] else []) ++
+         (if hz then [.stag (if cz then "Z" else "z") [] false, .chars false, .etag (if cz then "Z" else "z")] else []) ++
+         [.etag "point", .etag "approximate", .comment, .stag "adjusted" [] false, .etag "adjusted",
+          .stag "std-error-ellipses" [] false, .etag "std-error-ellipses",
+          .stag "orientation-shifts" [] false, .etag "orientation-shifts", .comment,
+          .stag "cov-mat" [] false, .stag "dim" [] false, .chars false, .etag "dim", .stag "band" [] false, .chars false,
+          .etag "band", .etag "cov-mat", .comment, .stag "original-index" [] false, .etag "original-index",
+          .etag "coordinates"]) = true := by
+  intro hxy cxy hz cz
+  cases hxy <;> cases cxy <;> cases hz <;> cases cz <;> decide +kernel
 
 /-! ## covariance band -/
 
@@ -232,6 +271,22 @@ example : mixedOut.map (fun p => [p.hxy, p.hz, p.cxy, p.cz]) =
     [[true, true, false, false], [true, false, true, false], [false, true, false, false]] := by decide
 example : (match runPoint (0 : Nat) (sectionStart 0 false) [.id "A", .x 1 false] with
     | .error .xWithoutY => true | _ => false) = true := by decide
+-- the skeleton generates documents: the smallest one (no points, no observations) and one with a point whose id is `A&B`
+example : ∃ toks, Gen (.seq (.tok (.stag "id" [] false)) (.seq (.tok (.text "id" .text true)) (.tok (.etag "id")))) toks ∧
+    toks = [.stag "id" [] false, .chars (str2xml [65, 38, 66]), .etag "id"] :=
+  ⟨_, .seq (.tok (.stag .nil)) (.seq (.tok (.text ⟨[65, 38, 66], rfl⟩)) (.tok .etag)), rfl⟩
+example : run St.init [.decl, .stag "r" [] false, .stag "id" [] false, .chars [65], .etag "id", .etag "r", .chars [10]] =
+    some ⟨.epilog, []⟩ := by decide
+-- mismatched end tag, second root element, character data outside the root, text after `<?xml` moved: all refused
+example : run St.init [.stag "r" [] false, .stag "id" [] false, .etag "r"] = none := by decide
+example : run St.init [.stag "r" [] true, .stag "s" [] true] = none := by decide
+example : run St.init [.chars [65], .stag "r" [] true] = none := by decide
+example : run St.init [.chars [10], .decl] = none := by decide
+-- a skeleton that forgets a close, or streams a raw identifier, fails the static checks
+example : chk (.seq (.tok (.stag "a" [] false)) (.star (.tok (.stag "b" [] false)))) St.init = none := by decide
+example : skOK (.tok (.text "id" .text false)) = false := by decide
+example : lexOK (.stag "a" [("x", [34])] false) = false := by decide
+example : lexOK (.stag "a" [("x", []), ("x", [])] false) = false := by decide
 -- the record round trips with the fixed-digits printer of b-C13 (`decCodec`, quantisation `decQ`): a fixed 3D point,
 -- a free 3D point, a constrained plane point whose id has an inner blank, a height point, an unused point
 example : ∃ r, readPoints (numOf Gama.Export.decCodec) 0 (sectionStart 0 true)
